@@ -181,3 +181,68 @@ func zzH11_minmax() {
 	_ = syntax.LT
 	zzReach("end")
 }
+
+// zzH11_sorted_ties: sorted without key over elements that may be equal yet distinguishable
+// (an Int and the Float of the same value), with and without reverse: the result is the
+// stable arrangement — ties keep their input order in both directions.
+//
+//verif:unwind 80
+func zzH11_sorted_ties() {
+	const n = 3
+	var v [n]int64
+	var isF [n]bool
+	elems := make([]Value, n)
+	for i := 0; i < n; i++ {
+		// values from a small concrete set (exact Int/Float comparison of symbolic values goes
+		// through big.Rat and is covered by zzH11_int_float_*): what is explored here is every
+		// arrangement of ties and kinds
+		v[i] = int64(zzChoice("v"+string(rune('0'+i)), 3))
+		isF[i] = zzChoice("float"+string(rune('0'+i)), 2) == 1
+		if isF[i] {
+			elems[i] = Float(float64(v[i]))
+		} else {
+			elems[i] = MakeInt64(v[i])
+		}
+	}
+	reverse := zzChoice("reverse", 2) == 1
+	// reference: stable insertion sort of the indices
+	idx := []int{0, 1, 2}
+	for a := 1; a < n; a++ {
+		for b := a; b > 0; b-- {
+			x, y := idx[b-1], idx[b]
+			var before bool // must y move before x?
+			if reverse {
+				before = v[y] > v[x]
+			} else {
+				before = v[y] < v[x]
+			}
+			if !before {
+				break
+			}
+			idx[b-1], idx[b] = y, x
+		}
+	}
+	th := &Thread{Name: "zz"}
+	var kwargs []Tuple
+	if reverse {
+		kwargs = []Tuple{{String("reverse"), True}}
+	}
+	res, err := Call(th, Universe["sorted"], Tuple{NewList(elems)}, kwargs)
+	zzAssert(err == nil, "C11.sortedties.ok")
+	if err != nil {
+		return
+	}
+	out := res.(*List)
+	zzAssert(out.Len() == n, "C11.sortedties.length")
+	for a := 0; a < n && a < out.Len(); a++ {
+		want := idx[a]
+		switch g := out.Index(a).(type) {
+		case Int:
+			got, _ := g.Int64()
+			zzAssert(zzAnd(!isF[want], got == v[want]), "C11.sortedties.stable_arrangement")
+		case Float:
+			zzAssert(zzAnd(isF[want], float64(g) == float64(v[want])), "C11.sortedties.stable_arrangement")
+		}
+	}
+	zzReach("end")
+}
